@@ -1,6 +1,8 @@
 package main
 
 import (
+	"runtime/debug"
+	"runtime/pprof"
 	"fmt"
 	"os"
 	"strconv"
@@ -16,6 +18,8 @@ func usage() {
 }
 
 func main() {
+	// the loaded SSA program is a large, long-lived heap: collect rarely
+	debug.SetGCPercent(800)
 	if len(os.Args) < 2 {
 		usage()
 	}
@@ -47,14 +51,22 @@ func main() {
 		if os.Getenv("GOSYM_NOIFCONV") != "" {
 			cfg.NoIfConv = true
 		}
+		if pf := os.Getenv("GOSYM_PROF"); pf != "" {
+			f, _ := os.Create(pf)
+			pprof.StartCPUProfile(f)
+			defer pprof.StopCPUProfile()
+		}
 		res := runJob(prog, cfg, nw)
 		fmt.Println(res.summary())
 		for k, v := range res.Details {
 			fmt.Printf("  %d x %s\n", v, k)
 		}
-		for i, v := range res.Viols {
-			if i > 5 {
-				break
+		shown := map[string]int{}
+		for _, v := range res.Viols {
+			k := v.ID + "|" + v.Known
+			shown[k]++
+			if shown[k] > 2 {
+				continue
 			}
 			fmt.Printf("  VIOL %s %s %s known=%q\n", v.Kind, v.ID, v.Detail, v.Known)
 			if v.W != nil {
